@@ -104,23 +104,39 @@ func withNot(f Fact) Fact {
 				operands = append(operands, e)
 			}
 			switch {
-			case nFalse > 0 && nTrue == 0: // conjunction
+			case nFalse > 0 && nTrue == 0: // conjunction: true ⇒ every operand true; false ⇒ some operand false
+				allFalse := len(operands) > 0
 				for _, o := range operands {
 					if o == cond {
 						continue
 					}
-					if t, _ := g(o); t {
+					t, fl := g(o)
+					if t {
 						return true, false
 					}
+					if !fl {
+						allFalse = false
+					}
 				}
-			case nTrue > 0 && nFalse == 0: // disjunction
+				if allFalse {
+					return false, true // the fact holds whichever operand was false
+				}
+			case nTrue > 0 && nFalse == 0: // disjunction: false ⇒ every operand false; true ⇒ some operand true
+				allTrue := len(operands) > 0
 				for _, o := range operands {
 					if o == cond {
 						continue
 					}
-					if _, fl := g(o); fl {
+					t, fl := g(o)
+					if fl {
 						return false, true
 					}
+					if !t {
+						allTrue = false
+					}
+				}
+				if allTrue {
+					return true, false // the fact holds whichever operand was true
 				}
 			}
 			return false, false
@@ -134,6 +150,13 @@ func withNot(f Fact) Fact {
 func GuardedBy(b *ssa.BasicBlock, fact Fact) bool {
 	fact = withNot(fact)
 	fn := b.Parent()
+	// edges on which the fact is established
+	type edge struct {
+		from *ssa.BasicBlock
+		succ int
+	}
+	factEdge := map[edge]bool{}
+	any := false
 	for _, ib := range fn.Blocks {
 		if len(ib.Instrs) == 0 {
 			continue
@@ -143,14 +166,41 @@ func GuardedBy(b *ssa.BasicBlock, fact Fact) bool {
 			continue
 		}
 		t, f := fact(iff.Cond)
-		if t && edgeDominates(ib, 0, b) {
-			return true
+		if t {
+			factEdge[edge{ib, 0}] = true
+			any = true
 		}
-		if f && edgeDominates(ib, 1, b) {
-			return true
+		if f {
+			factEdge[edge{ib, 1}] = true
+			any = true
 		}
 	}
-	return false
+	if !any || len(fn.Blocks) == 0 {
+		return false
+	}
+	// b is guarded iff it is unreachable from the entry once the fact edges are removed (every path to b takes one of them:
+	// this also covers `if a || b {…}`, whose then-block has two incoming fact edges and no single dominating one)
+	if b == fn.Blocks[0] {
+		return false
+	}
+	seen := map[*ssa.BasicBlock]bool{fn.Blocks[0]: true}
+	work := []*ssa.BasicBlock{fn.Blocks[0]}
+	for len(work) > 0 {
+		x := work[len(work)-1]
+		work = work[:len(work)-1]
+		for i, sx := range x.Succs {
+			if factEdge[edge{x, i}] || seen[sx] {
+				continue
+			}
+			if sx == b {
+				return false
+			}
+			seen[sx] = true
+			work = append(work, sx)
+		}
+	}
+	// unreachable without a fact edge; make sure it is reachable at all (dead blocks are not "guarded")
+	return true
 }
 
 // FactBlocks returns the set of blocks of fn on which the fact is known to hold.
